@@ -30,6 +30,16 @@ def gen_bases(rng, truth, alt, positions, clean=False):
     return out
 
 
+class Alt:
+    """The molecule's alternative (error) base per reference position, computed on demand."""
+    def __init__(self, ref, k):
+        self.ref, self.k = ref, k
+
+    def __getitem__(self, p):
+        c = self.ref[p]
+        return 'ACGT'[('ACGT'.index(c) + self.k) % 4] if c in 'ACGT' else 'A'
+
+
 def gen_mate(rng, ref, alt, start, length, rev, gaps=True):
     cigar = molgen.random_cigar(rng, length, gaps)
     mate = {'start': start, 'rev': rev, 'cigar': cigar, 'seq': ['A'] * length, 'q': [0] * length}
@@ -52,7 +62,7 @@ def gen_mate(rng, ref, alt, start, length, rev, gaps=True):
 
 def gen_molecule(rng, ref, tier):
     """Abstract molecule: all fragments share the orientation of their first mate (as in a real molecule)."""
-    alt = ''.join(rng.choice([b for b in 'ACGT' if b != c]) for c in ref)
+    alt = Alt(ref, rng.randint(1, 3))
     rev = rng.random() < 0.5
     span = rng.randint(6, 30)
     origin = rng.randint(100, 3500)
@@ -222,13 +232,13 @@ def main():
                     rng.shuffle(p)
                     perms.append(p)
                 perms.append(ident[::-1])
-            def go(order, dove, kind, incremental=False, merge=False):
-                for r in runner.run(ref, mol, order, dove, kind, incremental, probs=True, merge=merge):
+            def go(order, dove, kind, incremental=False, merge=False, probs=True):
+                for r in runner.run(ref, mol, order, dove, kind, incremental, probs=probs, merge=merge):
                     emit(dict(r, ev='cons', tid=tid))
             for dove in doves:
                 go(ident, dove, 'base', incremental=n > 1)      # the same object is queried after every addition
                 for j, p in enumerate(perms):
-                    go(p, dove, 'perm', incremental=(j == 0))
+                    go(p, dove, 'perm', incremental=(j == 0), probs=(j % 2 == 0))     # second shape on every other permutation
                 if n > 1:
                     go(ident[::-1], dove, 'perm', merge=True)     # grown by add_molecule instead of add_fragment
                 dbl = ident + ident
